@@ -271,7 +271,7 @@ func (g *Gen) lhs(label string) (string, *Type) {
 		}
 	}
 	switch {
-	case strings.Contains(code, "(*"):
+	case strings.HasPrefix(code, "*"):
 		g.use("lhs-deref")
 	case strings.Contains(code, "["):
 		g.use("lhs-index")
